@@ -220,20 +220,32 @@ func verifC04RefMaps(refs []metav1.OwnerReference) []interface{} {
 	return out
 }
 
+// verifC04RefsEqual: got holds exactly the references of want — matched by UID
+// (the fixture's UIDs are distinct constants), in ANY order: the property fixes
+// which owner references an object has, not where in the list they stand.
 func verifC04RefsEqual(got, want []metav1.OwnerReference, what string) {
 	rt.Assert(len(got) == len(want), what+"/count")
 	if len(got) != len(want) {
 		return
 	}
 	for i := range want {
-		rt.Assert(got[i].UID == want[i].UID, what+"/uid")
-		rt.Assert(got[i].Name == want[i].Name, what+"/name")
-		rt.Assert(got[i].Kind == want[i].Kind, what+"/kind")
-		rt.Assert(got[i].APIVersion == want[i].APIVersion, what+"/apiVersion")
-		gc := got[i].Controller != nil && *got[i].Controller
+		var g *metav1.OwnerReference
+		for j := range got {
+			if got[j].UID == want[i].UID {
+				g = &got[j]
+			}
+		}
+		rt.Assert(g != nil, what+"/uid")
+		if g == nil {
+			continue
+		}
+		rt.Assert(g.Name == want[i].Name, what+"/name")
+		rt.Assert(g.Kind == want[i].Kind, what+"/kind")
+		rt.Assert(g.APIVersion == want[i].APIVersion, what+"/apiVersion")
+		gc := g.Controller != nil && *g.Controller
 		wc := want[i].Controller != nil && *want[i].Controller
 		rt.Assert(gc == wc, what+"/controller-flag")
-		gb := got[i].BlockOwnerDeletion != nil && *got[i].BlockOwnerDeletion
+		gb := g.BlockOwnerDeletion != nil && *g.BlockOwnerDeletion
 		wb := want[i].BlockOwnerDeletion != nil && *want[i].BlockOwnerDeletion
 		rt.Assert(gb == wb, what+"/blockOwnerDeletion-flag")
 	}
